@@ -1,5 +1,6 @@
 SPECIFICATION Spec
 CONSTANTS W = 8
+          FullA = TRUE
           FullB = FALSE
 INVARIANT AllOk
 CHECK_DEADLOCK FALSE
